@@ -33,7 +33,7 @@ From TLV Require Import Base.Shape Base.PyList Base.Tensor Base.BigSum Model.Bas
   Proofs.TenalgProofsEinsumMttkrp Proofs.TenalgProofsEinsumKR Proofs.TenalgProofsEinsumOuter Proofs.TenalgProofsMultiGen Proofs.TenalgProofsMultiGen2 Proofs.TenalgProofsMemory
   Proofs.TenalgProofsTdotE Proofs.TenalgProofsTdotC Proofs.TenalgProofsEinsumMulti Proofs.TenalgProofsValidate Proofs.TenalgProofsTdotInner Proofs.TenalgProofsKRBcast Proofs.TenalgProofsNegMode Proofs.TenalgProofsNegMulti Proofs.TenalgProofsReject Proofs.TenalgProofsRepeat Proofs.TenalgProofsEq Proofs.TenalgProofsAnyModes Proofs.TenalgProofsW1
   Proofs.TenalgProofsSrc Proofs.TenalgProofsDefault Proofs.TenalgProofsMemW1 Proofs.TenalgProofsTdotRepeat
-  Model.TenalgRaw Proofs.TenalgProofsInnerRaw.
+  Model.TenalgRaw Proofs.TenalgProofsInnerRaw Proofs.TenalgProofsBcast.
 Import ListNotations.
 
 Definition ring_of {F} (Op : rops F) := ring_theory (r0 Op) (r1 Op) (radd Op) (rmul Op) (rsub Op) (ropp Op) (@eq F).
@@ -1156,3 +1156,50 @@ Theorem C02_source_list_building_loop : forall (X A : Type) (f : X -> res A) (st
   forall l acc, fold_res step l acc = rbind (collect (map f l)) (fun cs => Ok (acc ++ cs)).
 Proof. exact @fold_res_append_sim. Qed.
 Print Assumptions C02_source_list_building_loop.
+
+(* ---- round 9: NumPy's broadcasting multiply as a literal primitive (Proofs/TenalgProofsBcast.v: bcast_shape, clamp, bcast_mul for two
+   arrays of the same rank) and the reshape-then-multiply idioms of core_tenalg as they are written in the source:
+   outer:          tl.reshape(res, shape_res + (1,) * s1) * tl.reshape(tensor, (1,) * sres + shape)                  = outer2
+   batched_outer:  tl.reshape(res, shape_res + (1,) * size) * tl.reshape(tensor, (n,) + (1,) * size_res + shape[1:])  = bouter2
+   khatri_rao:     res * T.reshape(weights, (1, -1)) = apply_w,   res * T.reshape(mask, (-1, 1)) = apply_mask,
+                   T.reshape(T.reshape(res, (s1, 1, s2)) * T.reshape(e, (1, s3, s4)), (-1, n_col))                    = kr_step
+   for all shapes (the degenerate broadcasts the model rejects are excluded by a hypothesis, as in chk.assumptions) *)
+Theorem C02_outer_step_is_broadcast : forall (F : Type) (Op : rops F) (A B : tensor F),
+  rbind (reshape_spec (map Some (shape A ++ repeat 1 (ndim B))) A) (fun A' =>
+  rbind (reshape_spec (map Some (repeat 1 (ndim A) ++ shape B)) B) (fun B' => bcast_mul Op A' B')) = Ok (outer2 Op A B).
+Proof. exact @outer_step_is_broadcast. Qed.
+Print Assumptions C02_outer_step_is_broadcast.
+
+Theorem C02_batched_outer_step_is_broadcast : forall (F : Type) (Op : rops F) (A B : tensor F) (n : nat) (ra rb : list nat),
+  shape A = n :: ra -> shape B = n :: rb ->
+  rbind (reshape_spec (map Some (shape A ++ repeat 1 (ndim B - 1))) A) (fun A' =>
+  rbind (reshape_spec (map Some ([n] ++ repeat 1 (ndim A - 1) ++ tl (shape B))) B) (fun B' => bcast_mul Op A' B')) = Ok (bouter2 Op A B).
+Proof. exact @batched_outer_step_is_broadcast. Qed.
+Print Assumptions C02_batched_outer_step_is_broadcast.
+
+Theorem C02_khatri_rao_weights_row_is_broadcast : forall (F : Type) (Op : rops F) (M w : tensor F) (n R : nat),
+  shape M = [n; R] -> (R = 1 -> prod (shape w) = 1) ->
+  rbind (reshape_spec [Some 1; None] w) (fun w' => bcast_mul Op M w') = apply_w Op (Some w) M.
+Proof. exact @weights_row_is_broadcast. Qed.
+Print Assumptions C02_khatri_rao_weights_row_is_broadcast.
+
+Theorem C02_khatri_rao_mask_column_is_broadcast : forall (F : Type) (Op : rops F) (M m : tensor F) (n R : nat),
+  shape M = [n; R] -> (n = 1 -> prod (shape m) = 1) ->
+  rbind (reshape_spec [None; Some 1] m) (fun m' => bcast_mul Op M m') = apply_mask Op (Some m) M.
+Proof. exact @mask_column_is_broadcast. Qed.
+Print Assumptions C02_khatri_rao_mask_column_is_broadcast.
+
+Theorem C02_khatri_rao_block_is_broadcast : forall (F : Type) (Op : rops F) (A B : tensor F) (a b c : nat),
+  shape A = [a; c] -> shape B = [b; c] -> 0 < c ->
+  rbind (reshape_spec [Some a; Some 1; Some c] A) (fun A' =>
+  rbind (reshape_spec [Some 1; Some b; Some c] B) (fun B' =>
+  rbind (bcast_mul Op A' B') (fun P => reshape_spec [None; Some c] P))) = Ok (kr_step Op A B).
+Proof. exact @kr_block_is_broadcast. Qed.
+Print Assumptions C02_khatri_rao_block_is_broadcast.
+Example C02_bcast_mul_nonvacuous :
+  bcast_mul ZR (mk [2; 1] [1; 2]%Z) (mk [1; 3] [1; 10; 100]%Z) = Ok (mk [2; 3] [1; 10; 100; 2; 20; 200]%Z) /\
+  bcast_mul ZR (mk [2; 2] [1; 2; 3; 4]%Z) (mk [1; 3] [1; 10; 100]%Z) = Err /\
+  rbind (reshape_spec [Some 1; None] (mk [2] [10; 100]%Z)) (fun w' => bcast_mul ZR (mk [2; 2] [1; 2; 3; 4]%Z) w')
+    = apply_w ZR (Some (mk [2] [10; 100]%Z)) (mk [2; 2] [1; 2; 3; 4]%Z) /\
+  apply_w ZR (Some (mk [2] [10; 100]%Z)) (mk [2; 2] [1; 2; 3; 4]%Z) = Ok (mk [2; 2] [10; 200; 30; 400]%Z).
+Proof. exact bcast_mul_examples. Qed.
